@@ -370,3 +370,18 @@ Proof. exact reconnect_nothing_else. Qed.
 Print Assumptions C09J_reconnect_exact.
 Print Assumptions C09J_reconnect_exact_run.
 Print Assumptions C09J_reconnect_nothing_else.
+
+(* (2) The trace predicate of the check is a consequence of the model: for EVERY history from init, P_C09J evaluated on
+   the model's own observations and digests is true -- all five clauses (a)-(e), with the exemption list and the
+   waiver exactly as corr/Run_C09J.v keeps them.  (Proof: proofs/Janus_trace.v; the predicate's state is tied to the
+   model's by PInv: everything the predicate counts as closed is an id handed out that is out of mcu.clients; every closed
+   object is exempt or has nothing at the gateway; the keys of the registered publishers repeat only waived keys.) *)
+From Verif Require Import proofs.Janus_trace.
+Theorem C09J_P_on_every_model_trace : forall ops, P_C09J (trace_of ops) = true.
+Proof. exact P_on_every_model_trace. Qed.
+(* from any state satisfying the invariants, with the predicate in any state consistent with it *)
+Theorem C09J_P_from_any_consistent_state : forall ops ps st, JInv st -> PInv ps st ->
+  P_from ps (digest_of st) (trace_from st ops) = true.
+Proof. exact P_from_model. Qed.
+Print Assumptions C09J_P_on_every_model_trace.
+Print Assumptions C09J_P_from_any_consistent_state.
